@@ -196,6 +196,8 @@ class Evaluator:
         self.trace: list = []
         self.heap: dict = {}              # object id -> {'cls': name, 'attrs': {name: AV}}
         self.functions: dict = {}         # module-level functions callable by bare name: name -> ast.FunctionDef
+        self.strict_sets = False          # sets are sets: no duplicates, and their iteration order is not known
+        self.classes: dict = {}           # class name -> {method name: ast.FunctionDef} for heap objects of further classes
 
     # ---- functions ---------------------------------------------------------------------------------
     def call_method(self, name: str, args: list, self_av: AV | None = None, kwargs: dict | None = None) -> AV:
@@ -285,6 +287,39 @@ class Evaluator:
                         raise Unknown('extend with unknown contents')
                     env[c.func.value.id] = self._fwd(cur, AV('list', items=cur.items + tuple(v.items)))
                 return
+            if isinstance(c, ast.Call) and isinstance(c.func, ast.Attribute) and not c.keywords and \
+                    c.func.attr in ('append', 'extend', 'update', 'clear', 'add', 'insert') and \
+                    isinstance(c.func.value, (ast.Name, ast.Attribute, ast.Subscript)):
+                try:
+                    recv_ = self.ev(c.func.value, env)
+                except Unknown:
+                    recv_ = None
+                plain_ = self.unbox(recv_) if recv_ is not None else None
+                if plain_ is not None and plain_.kind in ('list', 'dict') and plain_.items is not None:
+                    args_ = [self.unbox(self.ev(a, env)) for a in c.args]
+                    how_ = c.func.attr
+
+                    def new_of(cur, args_=args_, how_=how_):
+                        if cur.kind == 'list' and how_ in ('append', 'add') and len(args_) == 1:
+                            return AV('list', items=cur.items + (args_[0],))
+                        if cur.kind == 'list' and how_ == 'extend' and len(args_) == 1 and args_[0].items is not None:
+                            return AV('list', items=cur.items + tuple(args_[0].items))
+                        if cur.kind == 'list' and how_ == 'insert' and len(args_) == 2 and isinstance(args_[0].val, int):
+                            items_ = list(cur.items)
+                            items_.insert(args_[0].val, args_[1])
+                            return AV('list', items=tuple(items_))
+                        if how_ == 'clear' and not args_:
+                            return AV(cur.kind, items=())
+                        if cur.kind == 'dict' and how_ == 'update' and len(args_) == 1 and args_[0].items is not None:
+                            out_ = cur
+                            for kv in args_[0].items:
+                                if kv.items is None or len(kv.items) != 2:
+                                    raise Unknown('update with entries of unknown shape')
+                                out_ = self._with_entry(out_, kv.items[0], kv.items[1])
+                            return out_
+                        raise Unknown(f'{how_} on a modelled container')
+                    self.change_container(c.func.value, new_of, env)
+                    return
             self.ev(st.value, env)
             return
         if isinstance(st, ast.Pass):
@@ -301,34 +336,25 @@ class Evaluator:
                         all(isinstance(e, ast.Name) for e in t.elts):
                     for e, x in zip(t.elts, v.items):
                         env[e.id] = x
-                elif isinstance(t, ast.Attribute):
-                    base = self.ev(t.value, env)
-                    if base.kind != 'obj':
-                        raise Unknown('attribute store on a value that is not a modelled object')
-                    self.obj_attrs(base)[t.attr] = v
                 elif isinstance(t, ast.Subscript) and isinstance(t.value, ast.Name) and t.value.id in env and \
-                        env[t.value.id].kind == 'dict' and env[t.value.id].items is not None:
+                        env[t.value.id].kind == 'dict' and env[t.value.id].items is not None and \
+                        self._references(env[t.value.id], env) <= 1:
                     cur_ = env[t.value.id]
-                    if sum(1 for v__ in env.values() if v__ is cur_) > 1:
-                        raise Unknown('in-place change of a dict that has two names')
                     key_ = self.ev(t.slice, env)
-                    kept_ = tuple(kv for kv in cur_.items if not self.eq(kv.items[0], key_))
-                    env[t.value.id] = self._fwd(cur_, AV('dict', items=kept_ + (AV('tuple', items=(key_, v)),)))
-                elif isinstance(t, ast.Subscript):
-                    base = self.ev(t.value, env)
-                    key = self.ev(t.slice, env)
-                    if base.kind == 'obj' and 'items' in self.obj_attrs(base):          # a modelled mutable dict / list object
-                        store = self.obj_attrs(base)['items']
-                        self.obj_attrs(base)['items'] = AV(store.kind, items=tuple(
-                            kv for kv in (store.items or ()) if not self.eq(kv.items[0], key)) + (AV('tuple', items=(key, v)),)) \
-                            if store.kind == 'dict' else store
-                    else:
-                        raise Unknown('subscript store')
+                    env[t.value.id] = self._fwd(cur_, self._with_entry(cur_, key_, v))
+                elif isinstance(t, (ast.Attribute, ast.Subscript)):
+                    self.assign_to(t, v, env)
                 else:
                     raise Unknown('assignment target')
             return
         if isinstance(st, ast.AugAssign) and isinstance(st.target, ast.Name):
             env[st.target.id] = self.ev(ast.BinOp(left=ast.Name(id=st.target.id, ctx=ast.Load()), op=st.op, right=st.value), env)
+            return
+        if isinstance(st, ast.AugAssign) and isinstance(st.target, (ast.Attribute, ast.Subscript)):
+            import copy as _copy
+            load_ = _copy.deepcopy(st.target)
+            load_.ctx = ast.Load()
+            self.assign_to(st.target, self.ev(ast.BinOp(left=load_, op=st.op, right=st.value), env), env)
             return
         if isinstance(st, ast.If):
             if truth(self.ev(st.test, env)):
@@ -399,8 +425,8 @@ class Evaluator:
             raise _Continue()
         if isinstance(st, ast.For) and (isinstance(st.target, ast.Name) or (isinstance(st.target, ast.Tuple) and
                                                                          all(isinstance(e, ast.Name) for e in st.target.elts))):
-            it = self.ev(st.iter, env)
-            if it.kind not in ('list', 'tuple') or it.items is None:
+            it = self.ordered(self.ev(st.iter, env))
+            if it.kind not in ('list', 'tuple', 'set') or it.items is None:
                 raise Unknown('loop over a collection of unknown contents')
             for x in it.items:
                 if isinstance(st.target, ast.Name):
@@ -476,6 +502,117 @@ class Evaluator:
 
     def obj_attrs(self, v: AV) -> dict:
         return self.heap[v.val[1]]['attrs']
+
+    def make_set(self, items) -> AV:
+        if not self.strict_sets:
+            return AV('list', items=tuple(items))
+        out = []
+        for x in items:
+            if x.kind == 'obj' or (x.val is None and x.kind != 'none'):
+                raise Unknown('a set of objects hashed by their class')
+            if not any(y.kind == x.kind and y.val == x.val for y in out):
+                out.append(x)
+        return AV('set', items=tuple(out))
+
+    def ordered(self, v: AV) -> AV:
+        """the value as something to iterate over in a known order"""
+        v = self.unbox(v)
+        if v.kind == 'set' and v.items is not None and len(v.items) > 1:
+            raise Unknown('the iteration order of a set')
+        if v.kind == 'dict' and v.items is not None:
+            return AV('list', items=tuple(kv.items[0] for kv in v.items))
+        return v
+
+    # ---- boxed containers: a dict / list with reference semantics (what a library hands out and the code under analysis aliases)
+    def box(self, av: AV) -> AV:
+        return self.new_obj(av.kind, {'items': av})
+
+    def is_box(self, v: AV) -> bool:
+        return v.kind == 'obj' and isinstance(v.val, tuple) and v.val[2] in ('dict', 'list') and 'items' in self.heap[v.val[1]]['attrs']
+
+    def unbox(self, v: AV) -> AV:
+        return self.heap[v.val[1]]['attrs']['items'] if self.is_box(v) else v
+
+    def deep_unbox(self, v: AV) -> AV:
+        v = self.unbox(v)
+        if v.items is not None and v.kind in ('list', 'tuple', 'dict'):
+            return replace(v, items=tuple(self.deep_unbox(x) for x in v.items))
+        return v
+
+    def class_method(self, obj, name: str):
+        if obj is not None and obj.kind == 'obj' and isinstance(obj.val, tuple):
+            return self.classes.get(obj.val[2], {}).get(name)
+        return None
+
+    def call_bound(self, fn: ast.FunctionDef, obj: AV, args: list, kwargs: dict | None = None) -> AV:
+        static = any(isinstance(d, ast.Name) and d.id == 'staticmethod' for d in fn.decorator_list)
+        return self.call_function(fn, list(args) if static else [obj] + list(args), kwargs)
+
+    def _references(self, cur: AV, env) -> int:
+        """how many places visible here hold this very container (names of the frame, attributes of heap objects, entries of
+        containers held there)"""
+        n = 0
+
+        def look(v, depth):
+            nonlocal n
+            if v is cur:
+                n += 1
+                return
+            if depth and v.items is not None and v.kind in ('list', 'tuple', 'dict'):
+                for x in v.items:
+                    look(x, depth - 1)
+        for v in env.values():
+            if isinstance(v, AV):
+                look(v, 2)
+        for o in self.heap.values():
+            for v in o['attrs'].values():
+                if isinstance(v, AV):
+                    look(v, 2)
+        return n
+
+    def assign_to(self, t, v: AV, env, old: AV | None = None):
+        """store into a name, an attribute of a modelled object, or an entry of a container held in one of those (the holder is
+        re-bound to the changed container; a container that is visible under two names is not followed)"""
+        if isinstance(t, ast.Name):
+            env[t.id] = self._fwd(old, v) if old is not None else v
+            return
+        if isinstance(t, ast.Attribute):
+            base = self.ev(t.value, env)
+            if base.kind != 'obj':
+                raise Unknown('attribute store on a value that is not a modelled object')
+            self.obj_attrs(base)[t.attr] = v
+            return
+        if isinstance(t, ast.Subscript) and not isinstance(t.slice, ast.Slice):
+            key = self.ev(t.slice, env)
+            self.change_container(t.value, lambda c: self._with_entry(c, key, v), env)
+            return
+        raise Unknown('assignment target')
+
+    def _with_entry(self, c: AV, key: AV, v: AV) -> AV:
+        if c.kind == 'dict' and c.items is not None:
+            hit = any(self.eq(kv.items[0], key) for kv in c.items)
+            if hit:          # a re-assigned key keeps its position
+                return AV('dict', items=tuple(AV('tuple', items=(kv.items[0], v)) if self.eq(kv.items[0], key) else kv for kv in c.items))
+            return AV('dict', items=c.items + (AV('tuple', items=(key, v)),))
+        if c.kind == 'list' and c.items is not None and isinstance(key.val, int) and not isinstance(key.val, bool):
+            if -len(c.items) <= key.val < len(c.items):
+                items = list(c.items)
+                items[key.val] = v
+                return AV('list', items=tuple(items))
+            raise AbsRaise('IndexError', 'list assignment index out of range')
+        raise Unknown('subscript store')
+
+    def change_container(self, node, new_of, env):
+        """the container `node` evaluates to is changed in place: boxed containers change where they are, plain ones are
+        re-bound in their holder"""
+        cur = self.ev(node, env)
+        if self.is_box(cur):
+            at = self.obj_attrs(cur)
+            at['items'] = new_of(at['items'])
+            return
+        if self._references(cur, env) > 1:
+            raise Unknown('in-place change of a container that is visible under two names')
+        self.assign_to(node, new_of(cur), env, old=cur)
 
     def call_function(self, fn: ast.FunctionDef, args: list, kwargs: dict | None = None) -> AV:
         """a module-level function (no self)"""
@@ -616,6 +753,15 @@ class Evaluator:
                 at = self.obj_attrs(v)
                 if node.attr in at:
                     return at[node.attr]
+                cm_ = self.class_method(v, node.attr)
+                if cm_ is not None:
+                    if any(isinstance(d, ast.Name) and d.id in ('property', 'cached_property') for d in cm_.decorator_list):
+                        return self.call_bound(cm_, v, [])
+                    return AV('func', val=('native', lambda a, cm_=cm_, v=v: self.call_bound(cm_, v, a)))
+                if isinstance(node.value, ast.Name) and node.value.id == 'self' and node.attr in self.members:
+                    return AV('func', val=('native', lambda a, n_=node.attr, v=v: self.call_method(n_, a, v)))
+                if node.attr == '__class__':
+                    return AV('other', val=('class', v.val[2]))
                 raise AbsRaise('AttributeError', f'{v.val[2]} has no attribute {node.attr}')
             if v.kind in ('date', 'datetime') and node.attr in ('year', 'month', 'day'):
                 if isinstance(v.val, tuple) and v.val and v.val[0] == 'ymd':
@@ -624,6 +770,14 @@ class Evaluator:
             raise Unknown(f'attribute {node.attr} of {v!r}')
         if isinstance(node, ast.BinOp):
             a, b = self.ev(node.left, env), self.ev(node.right, env)
+            if isinstance(node.op, ast.BitOr) and self.unbox(a).kind == 'dict' and self.unbox(b).kind == 'dict':
+                a, b = self.unbox(a), self.unbox(b)
+                if a.items is None or b.items is None:
+                    raise Unknown('union of mappings of unknown contents')
+                out_ = a
+                for kv in b.items:
+                    out_ = self._with_entry(out_, kv.items[0], kv.items[1])
+                return AV('dict', items=out_.items)
             if isinstance(node.op, (ast.Add, ast.Sub)) and a.kind in ('date', 'datetime') and b.kind == 'timedelta' and \
                     isinstance(a.val, tuple) and a.val[0] == 'day':
                 k = b.val[1] if isinstance(node.op, ast.Add) else -b.val[1]
@@ -655,7 +809,7 @@ class Evaluator:
             return v_
         if isinstance(node, ast.DictComp) and len(node.generators) == 1:
             g_ = node.generators[0]
-            it_ = self.ev(g_.iter, env)
+            it_ = self.ordered(self.ev(g_.iter, env))
             if it_.items is None:
                 raise Unknown('dict comprehension over unknown contents')
             out_ = []
@@ -671,8 +825,18 @@ class Evaluator:
                 if all(truth(self.ev(c_, e2)) for c_ in g_.ifs):
                     out_.append(AV('tuple', items=(self.ev(node.key, e2), self.ev(node.value, e2))))
             return AV('dict', items=tuple(out_))
-        if isinstance(node, ast.Dict) and all(k is not None for k in node.keys):
-            return AV('dict', items=tuple(AV('tuple', items=(self.ev(k, env), self.ev(v, env))) for k, v in zip(node.keys, node.values)))
+        if isinstance(node, ast.Dict):
+            out_ = AV('dict', items=())
+            for k, v in zip(node.keys, node.values):
+                if k is None:
+                    more_ = self.unbox(self.ev(v, env))
+                    if more_.kind != 'dict' or more_.items is None:
+                        raise Unknown('** of a mapping of unknown contents')
+                    for kv in more_.items:
+                        out_ = self._with_entry(out_, kv.items[0], kv.items[1])
+                else:
+                    out_ = self._with_entry(out_, self.ev(k, env), self.ev(v, env))
+            return out_
         if isinstance(node, ast.Lambda):
             return AV('func', val=('lambda', node, env))
         if isinstance(node, ast.Yield):
@@ -688,7 +852,7 @@ class Evaluator:
                     out.append(self.ev(node.elt, e2))
                     return
                 g = node.generators[k]
-                it = self.ev(g.iter, e2)
+                it = self.ordered(self.ev(g.iter, e2))
                 if it.items is None:
                     raise Unknown('comprehension over a collection of unknown contents')
                 for x in it.items:
@@ -703,9 +867,11 @@ class Evaluator:
                     if all(truth(self.ev(c, e3)) for c in g.ifs):
                         gen(k + 1, e3)
             gen(0, dict(env))
+            if isinstance(node, ast.SetComp):
+                return self.make_set(out)
             return AV('list', items=tuple(out))
         if isinstance(node, ast.Set):
-            return AV('list', items=tuple(self.ev(e, env) for e in node.elts))
+            return self.make_set([self.ev(e, env) for e in node.elts])
         if isinstance(node, ast.JoinedStr):
             parts = []
             for v_ in node.values:
@@ -727,7 +893,7 @@ class Evaluator:
                 return const_av(''.join(parts))
             return AV('str', text='other')
         if isinstance(node, ast.Subscript):
-            base = self.ev(node.value, env)
+            base = self.unbox(self.ev(node.value, env))
             if base.kind == 'dict' and base.items is not None and not isinstance(node.slice, ast.Slice):
                 k = self.ev(node.slice, env)
                 for kv in base.items:
@@ -888,11 +1054,11 @@ class Evaluator:
             return const_av(start + sum(x.val for x in v.items))
         if name in ('set', 'frozenset'):
             if not node.args:
-                return AV('list', items=())
-            v = self.ev(node.args[0], env)
+                return self.make_set([])
+            v = self.unbox(self.ev(node.args[0], env))
             if v.items is None:
                 raise Unknown(name)
-            return AV('list', items=tuple(v.items))
+            return self.make_set(v.items if v.kind != 'dict' else [kv.items[0] for kv in v.items])
         if name in ('min', 'max') and (len(node.args) >= 2 or (len(node.args) == 1 and any(k.arg == 'default' for k in node.keywords))):
             if len(node.args) >= 2:
                 cand = [self.ev(a, env) for a in node.args]
@@ -940,7 +1106,7 @@ class Evaluator:
                 return self.ev(node.args[1], env)
             raise AbsRaise('StopIteration', 'next')
         if name == 'enumerate' and node.args:
-            v = self.ev(node.args[0], env)
+            v = self.ordered(self.ev(node.args[0], env))
             start = 0
             extra = node.args[1:] + [k.value for k in node.keywords if k.arg == 'start']
             if extra:
@@ -951,8 +1117,26 @@ class Evaluator:
             if v.items is None:
                 raise Unknown('enumerate of a collection of unknown contents')
             return AV('list', items=tuple(AV('tuple', items=(const_av(start + i), x)) for i, x in enumerate(v.items)))
+        if name == 'dict' and not node.args:
+            out_ = AV('dict', items=())
+            for k in node.keywords:
+                if k.arg is None:
+                    raise Unknown('dict(**)')
+                out_ = self._with_entry(out_, const_av(k.arg), self.ev(k.value, env))
+            return out_
+        if name == 'dict' and len(node.args) == 1 and not node.keywords:
+            v = self.unbox(self.ev(node.args[0], env))
+            if v.kind == 'dict' and v.items is not None:
+                return AV('dict', items=v.items)
+            v = self.ordered(v)
+            if v.items is None or not all(x.items is not None and len(x.items) == 2 for x in v.items):
+                raise Unknown('dict of unknown entries')
+            out_ = AV('dict', items=())
+            for x in v.items:
+                out_ = self._with_entry(out_, x.items[0], x.items[1])
+            return out_
         if name in ('list', 'tuple') and len(node.args) == 1:
-            v = self.ev(node.args[0], env)
+            v = self.ordered(self.ev(node.args[0], env))
             if v.items is not None:
                 return AV(name, items=v.items)
             raise Unknown(name)
@@ -976,6 +1160,12 @@ class Evaluator:
                 args = [self.ev(a, env) for a in node.args]
                 kw_ = {k.arg: self.ev(k.value, env) for k in node.keywords if k.arg}
                 res_ = self.call_method(f.attr, args, env.get('cls'), kw_)
+                self._write_back(node, env)
+                return res_
+            if isinstance(f.value, ast.Name) and f.value.id == 'self' and self.class_method(env.get('self'), f.attr) is not None and \
+                    f.attr not in self.obj_attrs(env['self']):
+                res_ = self.call_bound(self.class_method(env['self'], f.attr), env['self'], [self.ev(a, env) for a in node.args],
+                                       {k.arg: self.ev(k.value, env) for k in node.keywords if k.arg})
                 self._write_back(node, env)
                 return res_
             if isinstance(f.value, ast.Name) and f.value.id == 'self':
@@ -1028,14 +1218,40 @@ class Evaluator:
                 m_ = getattr(_re, txt[3:])(node.args[0].value, subj.val, flags)
                 return AV('other', val=('match', txt)) if m_ else AV('none')
             recv = self.ev(f.value, env)
+            if self.is_box(recv):
+                recv = self.unbox(recv)
             if recv.kind == 'obj':
                 at = self.obj_attrs(recv)
                 if f.attr in at and at[f.attr].kind == 'func':
                     return self.call_value(at[f.attr], [self.ev(a, env) for a in node.args])
+                cm_ = self.class_method(recv, f.attr)
+                if cm_ is not None:
+                    res_ = self.call_bound(cm_, recv, [self.ev(a, env) for a in node.args],
+                                           {k.arg: self.ev(k.value, env) for k in node.keywords if k.arg})
+                    self._write_back(node, env)
+                    return res_
                 raise AbsRaise('AttributeError', f'{recv.val[2]} has no method {f.attr}')
+            if recv.kind == 'dict' and recv.items is not None and f.attr in ('keys', 'values', 'items', 'copy') and not node.args:
+                if f.attr == 'copy':
+                    return AV('dict', items=recv.items)
+                return AV('list', items=tuple(kv if f.attr == 'items' else kv.items[0 if f.attr == 'keys' else 1] for kv in recv.items))
+            if recv.kind == 'list' and recv.items is not None and f.attr == 'copy' and not node.args:
+                return AV('list', items=recv.items)
             if recv.kind == 'str' and isinstance(recv.val, str) and f.attr in ('isdigit', 'isalpha', 'isupper', 'islower', 'isnumeric') \
                     and not node.args:
                 return const_av(getattr(recv.val, f.attr)())
+            if recv.kind == 'str' and isinstance(recv.val, str) and f.attr == 'join' and len(node.args) == 1:
+                parts_ = self.unbox(self.ev(node.args[0], env))
+                if parts_.items is None or not all(x.kind == 'str' and isinstance(x.val, str) for x in parts_.items):
+                    if parts_.items is not None and any(x.kind != 'str' for x in parts_.items):
+                        raise AbsRaise('TypeError', 'sequence item: expected str instance')
+                    raise Unknown('join of texts without a concrete carrier')
+                return const_av(recv.val.join(x.val for x in parts_.items))
+            if recv.kind == 'str' and isinstance(recv.val, str) and f.attr == 'split' and len(node.args) <= 1:
+                sep_ = self.ev(node.args[0], env) if node.args else None
+                if sep_ is not None and not isinstance(sep_.val, str):
+                    raise Unknown('split separator')
+                return AV('list', items=tuple(const_av(x) for x in recv.val.split(sep_.val if sep_ is not None else None)))
             if recv.kind == 'str' and isinstance(recv.val, str) and f.attr in ('upper', 'lower', 'strip', 'lstrip', 'rstrip') and not node.args:
                 return const_av(getattr(recv.val, f.attr)())
             if recv.kind == 'regex' and f.attr == 'findall' and node.args:
@@ -1104,6 +1320,15 @@ class Evaluator:
             return True
         if a.val is not None and b.val is not None and not isinstance(a.val, tuple) and not isinstance(b.val, tuple):
             return a.val == b.val
+        if a.kind == 'obj' and b.kind == 'obj' and isinstance(a.val, tuple) and isinstance(b.val, tuple) and a.val[2] == b.val[2]:
+            cm_ = self.class_method(a, '__eq__')
+            if cm_ is not None:
+                return truth(self.call_bound(cm_, a, [b]))
+            fields_ = getattr(self, 'dataclass_fields', {}).get(a.val[2])
+            if fields_ is not None:       # the generated __eq__ of a dataclass: the tuples of fields are compared
+                if a.val[1] == b.val[1]:
+                    return True
+                return all(self.eq(self.obj_attrs(a)[f_], self.obj_attrs(b)[f_]) for f_ in fields_)
         if isinstance(a.val, tuple) and isinstance(b.val, tuple):
             return a.val == b.val
         na, nb = a.kind in NUMERIC, b.kind in NUMERIC
@@ -1132,8 +1357,10 @@ class Evaluator:
         if isinstance(op, (ast.Is, ast.IsNot)):
             if a.kind == 'none' or b.kind == 'none':
                 r = a.kind == b.kind
-            elif isinstance(a.val, tuple) and isinstance(b.val, tuple) and a.val[0] == 'class':
-                r = a.val == b.val
+            elif isinstance(a.val, tuple) and isinstance(b.val, tuple) and a.val[0] == 'class' and b.val[0] in ('class', 'name'):
+                r = a.val[1] == b.val[1]
+            elif isinstance(a.val, tuple) and isinstance(b.val, tuple) and b.val[0] == 'class' and a.val[0] == 'name':
+                r = a.val[1] == b.val[1]
             elif (a.kind == 'other' and isinstance(a.val, tuple) and a.val[0] == 'name') or \
                     (b.kind == 'other' and isinstance(b.val, tuple) and b.val[0] == 'name'):
                 # an opaque named object (a sentinel) is identical to itself only
@@ -1146,6 +1373,7 @@ class Evaluator:
                 raise Unknown('identity')
             return r if isinstance(op, ast.Is) else not r
         if isinstance(op, (ast.In, ast.NotIn)):
+            b = self.unbox(b)
             if b.items is None:
                 raise Unknown('membership in an unknown container')
             r = False
